@@ -25,7 +25,11 @@ package c05
 //                                         the alert as resolved no later than group_interval after the resolving POST
 //                                         (= the group's next flush; zero slack under virtual time);
 //   notified-firing-after-resolution      no notification after the resolving POST lists the alert as firing;
-//   resolved-listed-without-send-resolved integration 1 is never handed a resolved alert.
+//   resolved-listed-without-send-resolved integration 1 is never handed a resolved alert;
+//   fired-alert-never-notified-under-its-own-labels / companion-listed-as-resolved: half of the alerts have a COMPANION
+//       in the same group whose label set differs only in surrounding white space / case / a trailing NBSP of one value
+//       ({instance="db1"} vs {instance="db1 "}): two different alerts. The companion keeps firing (heartbeats) while the
+//       other is resolved: each is notified under its own, verbatim label set, the companion never as resolved.
 // Direct-oracle-only part (no Coq cases); violations carry engine = "c05api" so that --replay re-runs them.
 
 import (
@@ -55,17 +59,19 @@ import (
 const apiEngine = "c05api"
 
 type APIAlert struct {
-	Name      string `json:"name"`       // alertname (= its own aggregation group)
-	First     int64  `json:"first"`      // ns after the start of the run of the first POST
-	StartMode string `json:"start_mode"` // absent | first | past
-	StartAgo  int64  `json:"start_ago"`  // past: startsAt = first POST - StartAgo (repeated by every heartbeat)
-	EndMode   string `json:"end_mode"`   // firing phase: absent | future (endsAt = POST + EndDelta)
-	EndDelta  int64  `json:"end_delta"`
-	Every     int64  `json:"every"`       // heartbeat period
-	Beats     int    `json:"beats"`       // number of firing POSTs
-	Resolve   string `json:"resolve"`     // form of the resolving POST (see above)
-	ResDelta  int64  `json:"res_delta"`   // end_only_past / both_equal: how far before the POST the end lies
-	ResRepeat int    `json:"res_repeats"` // the resolving POST is re-sent this many more times, every Every
+	Name       string `json:"name"`                  // alertname (= its aggregation group)
+	Inst       string `json:"inst,omitempty"`        // value of the label "instance" ("" = no such label)
+	KeepFiring bool   `json:"keep_firing,omitempty"` // companion: never resolved, heartbeats (no endsAt) continue to the end
+	First      int64  `json:"first"`                 // ns after the start of the run of the first POST
+	StartMode  string `json:"start_mode"`            // absent | first | past
+	StartAgo   int64  `json:"start_ago"`             // past: startsAt = first POST - StartAgo (repeated by every heartbeat)
+	EndMode    string `json:"end_mode"`              // firing phase: absent | future (endsAt = POST + EndDelta)
+	EndDelta   int64  `json:"end_delta"`
+	Every      int64  `json:"every"`       // heartbeat period
+	Beats      int    `json:"beats"`       // number of firing POSTs
+	Resolve    string `json:"resolve"`     // form of the resolving POST (see above)
+	ResDelta   int64  `json:"res_delta"`   // end_only_past / both_equal: how far before the POST the end lies
+	ResRepeat  int    `json:"res_repeats"` // the resolving POST is re-sent this many more times, every Every
 }
 
 type APICase struct {
@@ -124,9 +130,52 @@ func genAPICase(r *vh.Rand) APICase {
 			a.ResDelta = vh.Pick(r, []int64{0, sec})
 		}
 		a.ResRepeat = vh.Pick(r, []int{0, 0, 1, 3})
+		if r.Chance(1, 2) {
+			// a companion in the SAME group whose label set differs only in surrounding white space / case / a trailing
+			// NBSP of one value: a different alert. It keeps firing while [a] is resolved.
+			v := append([]string(nil), instVariants...)
+			vh.Shuffle(r, v)
+			a.Inst = v[0]
+			b := a
+			b.Inst, b.KeepFiring, b.EndMode, b.EndDelta, b.Resolve, b.ResRepeat = v[1], true, "absent", 0, "", 0
+			b.Beats = a.Beats + a.ResRepeat + 2
+			c.Alerts = append(c.Alerts, a, b)
+			continue
+		}
 		c.Alerts = append(c.Alerts, a)
 	}
 	return c
+}
+
+var instVariants = []string{"db1", "db1 ", " db1", "DB1", "db1\u00a0", "db1\n", "\tdb1"}
+
+func (a APIAlert) labels() map[string]string {
+	m := map[string]string{"alertname": a.Name}
+	if a.Inst != "" {
+		m["instance"] = a.Inst
+	}
+	return m
+}
+
+func (a APIAlert) String() string {
+	if a.Inst == "" {
+		return a.Name
+	}
+	return fmt.Sprintf("%s{instance=%q}", a.Name, a.Inst)
+}
+
+// is: the observed alert is exactly this alert (same label set, values verbatim)
+func (a APIAlert) is(ls model.LabelSet) bool {
+	want := a.labels()
+	if len(ls) != len(want) {
+		return false
+	}
+	for k, v := range want {
+		if string(ls[model.LabelName(k)]) != v {
+			return false
+		}
+	}
+	return true
 }
 
 type apiPost struct {
@@ -154,7 +203,7 @@ func (c *APICase) posts(t0 int64) []apiPost {
 			}
 			ps = append(ps, p)
 		}
-		for k := 0; k <= a.ResRepeat; k++ {
+		for k := 0; k <= a.ResRepeat && !a.KeepFiring; k++ {
 			t := a.First + int64(a.Beats)*a.Every + resOffset + int64(k)*a.Every
 			p := apiPost{t: t, idx: i, resolving: true}
 			now := t0 + t
@@ -179,8 +228,8 @@ func (c *APICase) posts(t0 int64) []apiPost {
 
 func apiTime(ns int64) time.Time { return time.Unix(0, ns).UTC() }
 
-func postOne(t *testing.T, api *apiv2.API, name string, starts, ends int64) (int, string) {
-	it := map[string]any{"labels": map[string]string{"alertname": name}}
+func postOne(t *testing.T, api *apiv2.API, labels map[string]string, starts, ends int64) (int, string) {
+	it := map[string]any{"labels": labels}
 	if starts != 0 {
 		it["startsAt"] = apiTime(starts).Format(time.RFC3339Nano)
 	}
@@ -227,14 +276,14 @@ func runAPICase(t *testing.T, c *APICase) (viol []vh.Violation, tags map[string]
 				time.Sleep(time.Duration(d))
 			}
 			synctest.Wait()
-			code, body := postOne(t, api, c.Alerts[p.idx].Name, p.starts, p.ends)
+			code, body := postOne(t, api, c.Alerts[p.idx].labels(), p.starts, p.ends)
 			if code != 200 {
 				k := "api-post-rejected"
 				if p.resolving {
 					k = "resolving-post-rejected"
 				}
 				a := c.Alerts[p.idx]
-				violate(k, fmt.Sprintf("POST of %s at +%s (form %s: startsAt %s endsAt %s) answered %d %s", a.Name, time.Duration(p.t), a.Resolve, rel(p.starts, t0), rel(p.ends, t0), code, body))
+				violate(k, fmt.Sprintf("POST of %s at +%s (form %s: startsAt %s endsAt %s) answered %d %s", a, time.Duration(p.t), a.Resolve, rel(p.starts, t0), rel(p.ends, t0), code, body))
 			}
 			synctest.Wait()
 			last = p.t
@@ -257,11 +306,34 @@ func runAPICase(t *testing.T, c *APICase) (viol []vh.Violation, tags map[string]
 			}
 			has := func(r sim.Rec) (resolved, present bool) {
 				for _, o := range r.Alerts {
-					if string(o.Labels["alertname"]) == a.Name {
+					if a.is(o.Labels) {
 						return o.Resolved, true
 					}
 				}
 				return false, false
+			}
+			if a.KeepFiring {
+				// the companion: firing by its own heartbeats (no endsAt) until lastBeat + resolve_timeout; while it is,
+				// every notification of its group lists it, as firing, under its own labels
+				tags["companion differing only in white space / case"]++
+				lastBeat := t0 + a.First + int64(a.Beats-1)*a.Every
+				listed := false
+				for _, r := range recs {
+					if r.Kind != "notify" || r.Outcome != sim.OK || r.T >= lastBeat+c.RT {
+						continue
+					}
+					res, present := has(r)
+					if present && res {
+						violate("companion-listed-as-resolved", fmt.Sprintf("%s is kept firing by heartbeats (last at +%s) but a notification at +%s lists it as resolved", a, time.Duration(lastBeat-t0), time.Duration(r.T-t0)))
+					}
+					if present && !res {
+						listed = true
+					}
+				}
+				if !listed {
+					violate("fired-alert-never-notified-under-its-own-labels", fmt.Sprintf("%s was posted firing from +%s on but no notification lists that label set", a, time.Duration(a.First)))
+				}
+				continue
 			}
 			tags["resolve="+a.Resolve]++
 			tags["fired with start="+a.StartMode+" end="+a.EndMode]++
@@ -275,7 +347,7 @@ func runAPICase(t *testing.T, c *APICase) (viol []vh.Violation, tags map[string]
 					continue
 				}
 				if r.I == 1 && res {
-					violate("resolved-listed-without-send-resolved", fmt.Sprintf("%s: the send_resolved=false integration was handed the resolved alert at +%s", a.Name, time.Duration(r.T-t0)))
+					violate("resolved-listed-without-send-resolved", fmt.Sprintf("%s: the send_resolved=false integration was handed the resolved alert at +%s", a, time.Duration(r.T-t0)))
 				}
 				if r.I == 0 && !res && r.T < tr {
 					toldFiring = true
@@ -284,17 +356,18 @@ func runAPICase(t *testing.T, c *APICase) (viol []vh.Violation, tags map[string]
 					reported = true
 				}
 				if !res && r.T > tr {
-					violate("notified-firing-after-resolution", fmt.Sprintf("%s: resolved by POST at +%s, listed as firing in a notification at +%s", a.Name, time.Duration(tr-t0), time.Duration(r.T-t0)))
+					violate("notified-firing-after-resolution", fmt.Sprintf("%s: resolved by POST at +%s, listed as firing in a notification at +%s", a, time.Duration(tr-t0), time.Duration(r.T-t0)))
 				}
 			}
 			switch {
 			case !toldFiring:
-				tags["receiver was not told firing before the resolution (clause does not apply)"]++
+				// Beats*Every > group_wait: the first flush of the group lies before the resolving POST
+				violate("fired-alert-never-notified-under-its-own-labels", fmt.Sprintf("%s was posted firing from +%s to +%s but no notification before that lists that label set as firing", a, time.Duration(a.First), time.Duration(tr-t0)))
 			case reported:
 				tags["resolution reported at the next flush"]++
 			default:
 				violate("resolution-not-reported-at-next-flush", fmt.Sprintf("%s: told firing, resolved by POST (form %s) at +%s: no resolved notification to the send_resolved integration by +%s (group_interval %s)",
-					a.Name, a.Resolve, time.Duration(tr-t0), time.Duration(tr-t0+c.GI), time.Duration(c.GI)))
+					a, a.Resolve, time.Duration(tr-t0), time.Duration(tr-t0+c.GI), time.Duration(c.GI)))
 			}
 		}
 		for _, r := range recs {
@@ -305,7 +378,7 @@ func runAPICase(t *testing.T, c *APICase) (viol []vh.Violation, tags map[string]
 					if o.Resolved {
 						st = "resolved"
 					}
-					parts = append(parts, fmt.Sprintf("%s=%s[%s,%s]", o.Labels["alertname"], st, rel(o.Starts, t0), rel(o.Ends, t0)))
+					parts = append(parts, fmt.Sprintf("%s=%s[%s,%s]", o.Labels, st, rel(o.Starts, t0), rel(o.Ends, t0)))
 				}
 				trace = append(trace, fmt.Sprintf("+%-10s %-6s int%d %s %s", time.Duration(r.T-t0), r.Kind, r.I, r.GKey, strings.Join(parts, " ")))
 			}
